@@ -32,3 +32,71 @@ Definition check_c06 (c : c06_case) : list string :=
   tag_if (negb (list_eqb entry_eqb w (o_walk c))) "mismatch:walk-headers" ++
   tag_if (negb (list_eqb entry_eqb (map tar_written w) (o_tar c))) "mismatch:layer-entries" ++
   validate (c_users c) (c_groups c) (c_tree c) (o_tar c).
+
+(* ---- bytes stage -----------------------------------------------------------
+   The harness builds a small filesystem (or a list of raw tar.Header values),
+   lets the REAL code write the tar stream (writeTar over walkFS for
+   filesystems, archive/tar's Writer driven as writeTar drives it for raw
+   headers) and reads a stream back with archive/tar's Reader.  The byte model
+   (Model/TarBytes.v) must produce the same bytes and read the same members. *)
+From Apko Require Export Model.TarBytes.
+
+(* byte strings are printed as runs: hexadecimal text or a number of NULs *)
+Inductive seg := SX (hex : string) | SZ (n : N).
+Definition hexval (c : ascii) : N :=
+  let n := N_of_ascii c in
+  if (n <? 58)%N then (n - 48)%N else (n - 87)%N.
+Fixpoint unhex (s : string) : bytes :=
+  match s with
+  | String a (String b r) => ascii_of_N (16 * hexval a + hexval b) :: unhex r
+  | _ => []
+  end.
+Definition seg_bytes (s : seg) : bytes :=
+  match s with SX h => unhex h | SZ n => repeat Ascii.zero (N.to_nat n) end.
+Definition segs (l : list seg) : bytes := List.concat (map seg_bytes l).
+
+Definition mkh (typ : N) (name link : string) (mode uid gid size mtime : Z) (nsec : N) (uname gname : string)
+    (dmaj dmin : Z) (pax : list (string * string)) : thdr :=
+  {| h_type := ascii_of_N typ; h_name := lit name; h_link := lit link; h_mode := mode; h_uid := uid; h_gid := gid;
+     h_size := size; h_mtime := mtime; h_mnsec := nsec; h_uname := lit uname; h_gname := lit gname;
+     h_devmaj := dmaj; h_devmin := dmin; h_pax := map (fun kv => (lit (fst kv), lit (snd kv))) pax |}.
+Definition mkm_ (h : thdr) (body : list seg) : member := (h, segs body).
+
+Definition pair_eqb {A B} (ea : A -> A -> bool) (eb : B -> B -> bool) (x y : A * B) : bool :=
+  ea (fst x) (fst y) && eb (snd x) (snd y).
+Definition thdr_eqb (a b : thdr) : bool :=
+  Ascii.eqb (h_type a) (h_type b) && beqb (h_name a) (h_name b) && beqb (h_link a) (h_link b) &&
+  (h_mode a =? h_mode b)%Z && (h_uid a =? h_uid b)%Z && (h_gid a =? h_gid b)%Z && (h_size a =? h_size b)%Z &&
+  (h_mtime a =? h_mtime b)%Z && (h_mnsec a =? h_mnsec b)%N && beqb (h_uname a) (h_uname b) && beqb (h_gname a) (h_gname b) &&
+  (h_devmaj a =? h_devmaj b)%Z && (h_devmin a =? h_devmin b)%Z && list_eqb (pair_eqb beqb beqb) (h_pax a) (h_pax b).
+Definition member_eqb : member -> member -> bool := pair_eqb thdr_eqb beqb.
+
+Definition res_opt_eqb {A} (eq : A -> A -> bool) (r : res A) (o : option A) : bool :=
+  match r, o with
+  | Ok a, Some b => eq a b
+  | Err, None => true
+  | _, _ => false
+  end.
+
+Record c06b_case := {
+  b_members : list member;               (* what is handed to the writer *)
+  b_written : option (option (list seg));(* None: the writer is not part of the case; Some None: the real writer failed *)
+  b_stream : option (list seg);          (* the stream read back; None: the written one *)
+  b_read : option (list member)          (* archive/tar Reader: members until io.EOF; None: an error *)
+}.
+
+Definition fs_members (c : c06_case) (contents : list (N * list seg)) : list member :=
+  map (member_of_entry (map (fun p => (fst p, segs (snd p))) contents)) (walk (case_env c) (c_tree c)).
+
+Definition check_c06b (c : c06b_case) : list string :=
+  let w := write_archive (b_members c) in
+  let stream := match b_stream c, b_written c with
+                | Some s, _ => segs s
+                | None, Some (Some s) => segs s
+                | None, _ => []
+                end in
+  match b_written c with
+  | Some o => tag_if (negb (res_opt_eqb beqb w (option_map segs o))) "mismatch:tar-bytes"
+  | None => []
+  end ++
+  tag_if (negb (res_opt_eqb (list_eqb member_eqb) (read_archive stream) (b_read c))) "mismatch:tar-read".
